@@ -9,7 +9,9 @@ class C03(WigBedProp):
     pid = "C03"
     rule = ("files written as in C01 (non-empty values); per file a sequence of 6–10 interval and per-base queries on the boundary "
             "set {0, len, every value start/end ±1, every block boundary ±1}, empty ranges included, against one reader "
-            "instance: plain, caching, a fresh reader per query, a fresh caching reader per query; and bigWigs from the independent "
+            "instance: plain, caching, a fresh reader per query, a fresh caching reader per query, the file on disk through open_file "
+            "with readers reopened from the original after it has answered queries / opened anew on a reopened handle / "
+            "reopened and caching, and four reopened readers answering concurrently with the original; and bigWigs from the independent "
             "encoder of C10 (bedGraph, variable-step and fixed-step sections with span ≠ step, either byte order, permuted "
             "chromosome ids), same reader modes, judged against the encoded content. "
             "Non-trivial = a query that cuts a value or ends on a block boundary in a multi-section file")
@@ -23,7 +25,7 @@ class C03(WigBedProp):
             o = bbgen.gen_options(r, tier)
             o["ips"] = r.choice([1, 2, 3, 7])
             o["bs"] = r.choice([2, 3, 5])
-            o["reader"] = r.choice(["plain", "cached", "fresh", "freshcached"])
+            o["reader"] = r.choice(["plain", "cached", "fresh", "freshcached", "reopened", "reopenedmt"])
             lines = [bbgen.opt_line(o)] + bbgen.wig_lines(names, sizes, data)
             lines += bbgen.gen_queries(r, names, sizes, data, ["iv", "iv", "vals"], r.range(6, 10), ips=o["ips"])
             tags.add("reader_" + o["reader"])
@@ -31,7 +33,7 @@ class C03(WigBedProp):
             out.append(CaseT(f"q{k}", "wig", [], lines, self.common_tags(o, names, data, tags)))
         # bigWigs no bigtools writer produces: variable-step / fixed-step sections, big-endian, any index layout
         for k in range(400 if tier == "thorough" else 60):
-            c = c10.foreign_case(rng.fork(f"foreign{k}"), f"f{k}", bed=False, readers=("plain", "cached", "fresh", "freshcached"))
+            c = c10.foreign_case(rng.fork(f"foreign{k}"), f"f{k}", bed=False, readers=("plain", "cached", "fresh", "freshcached", "reopened", "reopenedmt"))
             if c is not None:
                 c.tags.add("foreign_file")
                 out.append(c)
@@ -50,6 +52,9 @@ class C03(WigBedProp):
         return out
 
     def oracle(self, case, il):
+        if "CONC differ" in il:
+            return ("readers reopened from one file and used concurrently (each from its own thread, together with the original) "
+                    "do not all return the stored values")
         if case.kind == "readwig":
             return c10.PROP.oracle(case, il)
         return bbgen.basic_ok(il) or bbgen.oracle_wig_queries(case, il)
